@@ -11,6 +11,9 @@ CONSTANTS
   MidCrash = FALSE
   Timeouts = FALSE
   MaxWriteFaults = 1
+  MaxReadFaults = 0
+  ReadKinds = {}
+  ReadFix = FALSE
 INVARIANT ContainerOK
 INVARIANT TopIsHeight
 INVARIANT StorageShape
